@@ -442,9 +442,10 @@ func (g *golden) names(o *old.DB, c *sod.DB, who string) {
 func RunGolden(p Params) *Result {
 	r := simrt.NewRand(simrt.Mix(p.Seed, 11))
 	cfg := &Config{Compress: r.Chance(1, 2), Lower: r.Chance(1, 2), Ext: exts[r.Intn(len(exts))], Cache: r.Chance(1, 2), Cons: map[string]model.Cons{}}
-	if cfg.Ext == "" {
+	if cfg.Ext == "" || !strings.HasPrefix(cfg.Ext, ".") {
 		// the pinned release panics on a directory entry without a dot (repaired in the
-		// current tree, 86beb37): an empty extension is not a configuration it supports
+		// current tree, 86beb37) and does not recognise object files whose extension has no
+		// leading dot: such extensions are not configurations it supports
 		cfg.Ext = ".json"
 	}
 	if !cfg.Compress && strings.HasSuffix(cfg.Ext, ".gz") {
